@@ -26,8 +26,9 @@ EXTENDS Naturals, Sequences, FiniteSets, TLC
 CONSTANTS R, Topo, FailFast, FreshUid, NUids
 
 VARIABLES
-  p,        \* [fail : [stage -> SUBSET Req], route : [Req -> {"A","B"}], abandon : SUBSET Req]
-            \* what fails where; switch routing; which callers may time out before their result arrives
+  p,        \* [fail, pre : [stage -> SUBSET Req], route : [Req -> {"A","B"}], abandon : SUBSET Req]
+            \* whose call fails where; whom the per-element preprocess hook of a stage rejects; switch routing; which callers
+            \* may time out before their result arrives
   qs,       \* queues: [name -> sequence of [uid, val]]
   hold,     \* hold[w]: messages in the hands of worker w
   obx,      \* obx[w]: results computed by worker w, not yet put on its output queue (put in this order)
@@ -73,8 +74,11 @@ WIds == {w.id : w \in Workers}
 W(i) == CHOOSE w \in Workers : w.id = i
 UsedStages == {w.stage : w \in Workers}
 
-Configs == { c \in [fail : [Stages -> SUBSET Req], route : [Req -> {"A", "B"}], abandon : SUBSET {1}] :
-               /\ \A s \in Stages \ UsedStages : c.fail[s] = {}
+PSite(s) == CASE s = "S1" -> "PS1" [] s = "S2" -> "PS2" [] s = "A" -> "PA" [] s = "B" -> "PB"
+Configs == { c \in [fail : [Stages -> SUBSET Req], pre : [Stages -> SUBSET {2}], route : [Req -> {"A", "B"}],
+                    abandon : SUBSET {1}] :
+               /\ \A s \in Stages \ UsedStages : c.fail[s] = {} /\ c.pre[s] = {}
+               /\ \A s \in Stages : c.pre[s] \subseteq Req
                /\ (Topo # "switch" => \A r \in Req : c.route[r] = "A") }
 
 InitWith(c) ==
@@ -129,7 +133,10 @@ Abandon(r) ==
 WTake(i) ==
   LET w == W(i) IN
   /\ qs[w.from] # <<>> /\ (w.b = 1 => hold[i] = <<>> /\ obx[i] = <<>>)   \* a batching worker keeps collecting
-  /\ LET m == Head(qs[w.from]) IN
+  /\ LET m0 == Head(qs[w.from])
+         \* the per-element preprocess hook of this stage rejects the input: its own exception takes the value's place
+         m == IF ~IsErr(m0.val) /\ m0.val.req \in p.pre[w.stage] THEN Msg(m0.uid, Err(m0.val.req, PSite(w.stage))) ELSE m0
+     IN
        /\ qs' = [qs EXCEPT ![w.from] = Tail(@)]
        /\ IF IsErr(m.val)
             THEN IF w.b = 1 THEN obx' = [obx EXCEPT ![i] = Append(@, m)] /\ scb' = scb /\ hold' = hold
@@ -226,16 +233,21 @@ FailsAt(r, s) == r \in p.fail[s]
 BatchMates(r) == UNION {b \in batches : r \in b}
 
 \* what request r must receive
+PreAt(r, s) == r \in p.pre[s]
 ExpectedOK(r, v) ==
-  CASE Topo = "single" -> v = (IF FailsAt(r, "S1") THEN Err(r, "S1") ELSE Through(In(r), "S1"))
+  CASE Topo = "single" -> v = (IF PreAt(r, "S1") THEN Err(r, "PS1")
+                               ELSE IF FailsAt(r, "S1") THEN Err(r, "S1") ELSE Through(In(r), "S1"))
     [] Topo = "seq" ->
-         IF FailsAt(r, "S1") THEN v = Err(r, "S1")
+         IF PreAt(r, "S1") THEN v = Err(r, "PS1")
+         ELSE IF FailsAt(r, "S1") THEN v = Err(r, "S1")
+         ELSE IF PreAt(r, "S2") THEN v = Err(r, "PS2")
          ELSE IF \E x \in BatchMates(r) : FailsAt(x, "S2") THEN v = Err(r, "S2")     \* exactly the members of the batch
          ELSE v = Through(Through(In(r), "S1"), "S2")
     [] Topo = "switch" ->
-         LET s == p.route[r] IN v = (IF FailsAt(r, s) THEN Err(r, s) ELSE Through(In(r), s))
+         LET s == p.route[r] IN v = (IF PreAt(r, s) THEN Err(r, PSite(s))
+                                     ELSE IF FailsAt(r, s) THEN Err(r, s) ELSE Through(In(r), s))
     [] Topo = "ens" ->
-         LET fa == FailsAt(r, "A")  fb == FailsAt(r, "B")
+         LET fa == FailsAt(r, "A") \/ PreAt(r, "A")  fb == FailsAt(r, "B") \/ PreAt(r, "B")
              ea == IF fa THEN r + 100 ELSE r   eb == IF fb THEN r + 100 ELSE r IN
          IF FailFast /\ (fa \/ fb)
            THEN v.k = "x" /\ v.a \in {0, ea} /\ v.b \in {0, eb} /\ (v.a = ea \/ v.b = eb)
